@@ -52,6 +52,7 @@ type c20GroupSnap struct {
 }
 
 type c20Source struct {
+	big            int // size of the one large message of the history (0: none)
 	files          []c20File
 	keyA           []byte
 	keyProof       []byte
@@ -118,6 +119,8 @@ func c20BuildSource(t *testing.T, rt *rapid.T) *c20Source {
 	}
 	targets := append([][]byte{accPK}, gpks...)
 	nops := rapid.IntRange(1, 10).Draw(rt, "ops")
+	// one message of the history makes a log entry of several hundred KiB, or of more than one MiB
+	bigSize := rapid.SampledFrom([]int{0, 300 << 10, 1200 << 10, 1200 << 10}).Draw(rt, "large-message")
 	olderAt := rapid.IntRange(0, nops-1).Draw(rt, "older-export-at")
 	for i := 0; i < nops; i++ {
 		if i == olderAt {
@@ -138,7 +141,12 @@ func c20BuildSource(t *testing.T, rt *rapid.T) *c20Source {
 		var req proto.Message
 		switch rapid.IntRange(0, 4).Draw(rt, "op") {
 		case 0:
-			name, req = "AppMessageSend", &protocoltypes.AppMessageSend_Request{GroupPk: tgt, Payload: []byte(fmt.Sprintf("message-%d", i))}
+			payload := []byte(fmt.Sprintf("message-%d", i))
+			if bigSize > 0 && src.big == 0 {
+				payload = append(payload, bytes.Repeat([]byte{byte(i + 1)}, bigSize)...)
+				src.big = bigSize
+			}
+			name, req = "AppMessageSend", &protocoltypes.AppMessageSend_Request{GroupPk: tgt, Payload: payload}
 		case 1:
 			name, req = "AppMetadataSend", &protocoltypes.AppMetadataSend_Request{GroupPk: tgt, Payload: []byte(fmt.Sprintf("metadata-%d", i))}
 		case 2:
@@ -153,6 +161,11 @@ func c20BuildSource(t *testing.T, rt *rapid.T) *c20Source {
 		}
 		res := w.call(name, req)
 		src.trace = append(src.trace, fmt.Sprintf("%s -> err=%v", name, res.errored))
+	}
+	if bigSize > 0 && src.big == 0 {
+		res := w.call("AppMessageSend", &protocoltypes.AppMessageSend_Request{GroupPk: targets[len(targets)-1], Payload: bytes.Repeat([]byte{7}, bigSize)})
+		src.trace = append(src.trace, fmt.Sprintf("AppMessageSend(%d bytes) -> err=%v", bigSize, res.errored))
+		src.big = bigSize
 	}
 	// another member wrote to one of the multi-member groups meanwhile; its branch reaches the exporting node (entries
 	// fetched, heads exchanged) but the exporter has not written on top of it: that log has two heads at export time
@@ -618,6 +631,9 @@ func TestVerif_C20_RoundTrip(t *testing.T) {
 			fail("valid-archive-refused", fmt.Sprintf("restoring an untouched export (archive read through %q) failed: %v (timed out=%v)", tgt.transport, err, timedOut))
 		}
 		acct.Label("transport/" + map[bool]string{true: "split-reads", false: "one-reader"}[tgt.transport != ""])
+		if src.big > 1<<20 {
+			acct.Label("round-trip/entry-larger-than-1MiB")
+		}
 		if id, msg := tgt.compare(t, src); id != "" {
 			fail(id, msg)
 		}
